@@ -72,7 +72,7 @@ def gen_model(seed: int) -> Dict[str, Any]:
             corners.append(pos)
         # 'near' points stay within 1e-8 of each other, 'detached' ones >= 1.2e-6 from everything
         rot = hexref.IDENTITY if rs.chance(0.4) else rs.randrange(24)
-        blocks.append({"name": f"b{i}", "corners": hexref.renumber(corners, rot), "intent": hexref.renumber(intent, rot)})
+        blocks.append({"name": f"b{i}", "corners": hexref.renumber(corners, rot), "intent": hexref.renumber(intent, rot), "rot": rot, "cell": list(c)})
     names = POOL[: rs.randint(2, len(POOL))]
     p_patch = rs.pick([0.3, 0.6, 0.9])
     patches = []
@@ -117,10 +117,24 @@ def gen_model(seed: int) -> Dict[str, Any]:
     if pj.chance(0.25):
         model["projects"] = [{"target": b["name"], "corner": c, "label": pj.pick(["terrain", "terrain", "pipe"])}
                              for b in blocks for c in range(8) if pj.chance(0.2)]
+    # an operation built on another operation's own top face (as Extrude(lower.top_face, ...) or a Loft from it
+    # does): the two share the Face object and its points. Only where the script's points are identical anyway.
+    sh = Stream(seed, "shared_face", "C05")
+    shared = False
+    for j, bj in enumerate(blocks):
+        for i, bi in enumerate(blocks[:j]):
+            if bi["rot"] == hexref.IDENTITY and bj["rot"] == hexref.IDENTITY and bj["cell"] == [bi["cell"][0], bi["cell"][1], bi["cell"][2] + 1] \
+                    and bi["corners"][4:] == bj["corners"][:4] and "base" not in bj and sh.chance(0.5):
+                bj["base"] = bi["name"]
+                shared = True
+                # the shared face carries one patch name for both operations: none is declared on it
+                model["patches"] = [p for p in model["patches"] if not ((p["target"] == bi["name"] and p["side"] == "top")
+                                                                      or (p["target"] == bj["name"] and p["side"] == "bottom"))]
+                break
     fr = Stream(seed, "flips", "C05")
     if fr.chance(0.25):
         model["inverts"] = [b["name"] for b in blocks if fr.chance(0.5)] or [blocks[0]["name"]]
-        if fr.chance(0.3):
+        if fr.chance(0.3) and not shared:  # (transforming two operations that share a face moves that face twice: C09's subject)
             u = _unit(fr)
             model["mirror"] = {"normal": [round(x, 6) for x in u], "origin": [round(fr.uniform(-1, 1), 3) for _ in range(3)]}
     return model
@@ -130,7 +144,8 @@ def make_program(model: Dict[str, Any], cfg_seed: int, identity: bool = False) -
     cs = Stream(cfg_seed, "config", "C05")
     ops: List[Dict[str, Any]] = []
     for b in model["blocks"]:
-        ops.append(dict({"op": "hex", "name": b["name"], "corners": b["corners"]}, **({"edges": b["edges"]} if b.get("edges") else {})))
+        ops.append(dict({"op": "hex", "name": b["name"], "corners": b["corners"]}, **({"edges": b["edges"]} if b.get("edges") else {}),
+                        **({"base_face_of": b["base"]} if b.get("base") else {})))
         for a in range(3):
             ops.append({"op": "chop", "target": b["name"], "axis": a, "args": {"count": 2}})
     for p in model["patches"]:
